@@ -84,7 +84,7 @@ func fill(o *Outcome, c *credentials.Credentials) {
 
 func settingsSpace() []apworld.Settings {
 	var out []apworld.Settings
-	for _, skew := range []time.Duration{0, time.Second, time.Hour} {
+	for _, skew := range []time.Duration{0, time.Second, time.Hour, 500 * time.Millisecond, 2500 * time.Millisecond} {
 		for _, rha := range []bool{false, true} {
 			for _, ca := range []*krbmsg.HostAddress{nil, &apworld.AddrMatch, &apworld.AddrOther} {
 				for _, ov := range []string{"", apworld.Account, "HTTP/" + apworld.OtherHost} {
